@@ -392,6 +392,9 @@ def _insert(rng):
     n = rng.randint(1, 3)
     if rng.random() < 0.7:
         cols = ' (' + ', '.join(rng.sample(PLAIN_IDS, n)) + ')'
+        if rng.random() < 0.25:
+            # column names that need their quotes (in the column LIST, which has printers and readers of its own)
+            cols = ' (' + ', '.join(rng.sample(QUOTED_IDS + PLAIN_IDS[:3], n)) + ')'
     if rng.random() < 0.6:
         rows = ', '.join('(' + ', '.join(const(rng) for _ in range(n)) + ')' for _ in range(rng.randint(1, 2)))
         return f'INSERT INTO {t}{cols} VALUES {rows}'
@@ -623,7 +626,7 @@ def mutate(text, toks, rng, vocab):
     if not toks:
         return 'garbage', rng.choice(GARBAGE)
     k = rng.choice(['delete', 'dup', 'replace', 'insert', 'truncate', 'prefix', 'suffix', 'infix', 'swap', 'concat_garbage',
-                    'concat_stmt', 'unbalance', 'glue', 'relayout', 'comment', 'numedge', 'concat_long', 'comment_sandwich', 'stray_lexeme', 'lexeme_for_value', 'inner_blank'])
+                    'concat_stmt', 'unbalance', 'glue', 'relayout', 'comment', 'numedge', 'concat_long', 'comment_sandwich', 'stray_lexeme', 'lexeme_for_value', 'inner_blank', 'semicolon_tail'])
     i = rng.randrange(len(toks))
     t = toks[i]
     piece = text[t[2]:t[3]]
@@ -660,6 +663,13 @@ def mutate(text, toks, rng, vocab):
         vals = [x for x in toks if x[0] in ('INTEGER', 'FLOAT', 'QUOTE_STRING', 'DQUOTE_STRING', 'ID', 'VARIABLE', 'SYSTEM_VARIABLE', 'PARAMETER')]
         x = rng.choice(vals) if vals else t
         return k, text[:x[2]] + rng.choice(LEXEME_FORMS) + text[x[3]:]
+    if k == 'semicolon_tail':
+        # behind the statement's semicolon: comments with something between them, up to the very end of the text (what a tolerant
+        # "strip the end of the statement" must not swallow)
+        c1 = rng.choice(['/* first */', '/* a */', '-- c\n', '/**/', '/* x\n y */'])
+        c2 = rng.choice(['/* second */', '/* b */', '/**/', '/* z */ ', '-- end', '/* q */;', '/* r */ ;\n'])
+        mid = rng.choice(GARBAGE + ['drop view v', 'select 2', ', ,', ') (', 'x', text])
+        return k, text + rng.choice([';', ' ;', ';;', '; ']) + ' ' + c1 + ' ' + mid + ' ' + c2
     if k == 'concat_long':
         return k, 'selec ' + ', '.join(f'c{n}' for n in range(rng.choice([30, 70, 130, 300]))) + ' from t1 ; ' + text
     if k == 'delete':
